@@ -265,7 +265,10 @@ def run(ctx):
                        "not report success; progressive files (decoded testdata box by box, built ftyp/moov/mdat orders with "
                        "Data / DataParts / LargeSize): mdat payload positions from Size()/HeaderSize() = positions in the output, "
                        "moov written as it is; senc boxes decoded from generated bytes (both decoders) and parsed: per-node oracle; "
-                       "HdlrBox with handler types of 0..8 characters; "
+                       "HdlrBox with handler types of 0..8 characters; layouts chosen by a code, for EVERY value of the code: "
+                       "avcC with AVCProfileIndication 0..255 (built with / without NoTrailingInfo and parameter sets; decoded by "
+                       "both decoders from bytes with 0 / 2 / 4 trailing bytes) and the version byte 0..255 patched into encoded "
+                       "mvhd tkhd mdhd mehd tfdt sidx elst prft boxes, decoded by both decoders: per-node oracle incl. roomy writers; "
                        "aggregate corr: see aggregate_correspondence.inputs")
     ctx.cov["trusted_base"] += [
         "model: coq/c02/C02AggModel.v (hand transcription of Fragment/MediaSegment/InitSegment/File Size, Info, Encode, EncodeSW, "
@@ -293,7 +296,7 @@ def replay(ctx, path):
             print(l[:600])
         return 1 if mism else 0
     if r.get("kind") == "failing-input" and (w.startswith("setters ") or w.startswith("file=") or w.startswith("built ")
-                                             or w.startswith("Create") or w.startswith("HdlrBox") or " decoded (sr=" in w):
+                                             or w.startswith("Create") or w.startswith("HdlrBox") or w.startswith("AvcCBox") or " decoded (sr=" in w):
         # aggregate witnesses are descriptions; the search is deterministic for the recorded seed
         print(json.dumps(r, indent=1)[:6000])
         exe1, exe2, model = build(ctx)
